@@ -48,6 +48,114 @@ type vocConn struct {
 	deferred bool // its hang-up was recorded in a handler call behind a blocked entry and has not been delivered yet
 }
 
+// vocDial: a DIAL in progress as a slot owner.  The harness is the dialing goroutine's scheduler: newPollDesc and pollDesc.WaitWrite
+// (with a context the harness cancels) are the real code on a never-ready descriptor (one end of a socketpair whose send buffer is
+// full); what netFD.connect does after WaitWrite returned - the deferred operator.Free() - and what socket() does after connect
+// failed - netfd.Close() - are separate steps ("dfree", "dclosefd"; tie: Netpoll.Tie.Dial.connectDefer_eq /
+// socket_closes_on_dial_error), so that poller batches, new connections and late events of the dial's descriptor can be placed between them.
+type vocDial struct {
+	id         int
+	fd, peer   int
+	pd         *pollDesc
+	op         *FDOperator
+	idx        int32
+	cancel     context.CancelFunc
+	ret        chan struct{} // closed when WaitWrite has returned
+	err        error
+	returned   bool // the harness has seen WaitWrite return
+	freed      bool // connect's deferred operator.Free() done
+	fdClosed   bool // socket()'s netfd.Close() done
+	peerClosed bool
+	deferred   bool // its hang-up was recorded behind a blocked entry of a hang-up list and has not been delivered yet
+}
+
+func vocChClosed(ch chan struct{}) bool {
+	select {
+	case <-ch:
+		return true
+	default:
+		return false
+	}
+}
+
+// waitRet waits until the dial's WaitWrite has returned
+func (d *vocDial) waitRet(dur time.Duration) bool {
+	if d.returned {
+		return true
+	}
+	select {
+	case <-d.ret:
+		d.returned = true
+		return true
+	case <-time.After(dur):
+		return false
+	}
+}
+
+// verifBeforeSendmsg is called by the hooked copy of sendmsg (lib/epollhook.py) in front of the system call: a schedule point between
+// a writer's lock(flushing) and its sendmsg on c.fd; nil, or never called when the harness was built without that overlay
+var verifBeforeSendmsg func(fd int)
+
+func vocSendHookAvailable() bool {
+	hit := false
+	old := verifBeforeSendmsg
+	verifBeforeSendmsg = func(int) { hit = true }
+	sendmsg(-1, [][]byte{{0}}, make([]syscall.Iovec, 1), false)
+	verifBeforeSendmsg = old
+	return hit
+}
+
+// regs reads the REAL epoll set of the poller (/proc/self/fdinfo/<epfd>): slot pointer (the registration's data word) -> descriptors
+// registered under it
+func (w *vocWorld) regs() map[uintptr][]int {
+	out := map[uintptr][]int{}
+	b, err := os.ReadFile(fmt.Sprintf("/proc/self/fdinfo/%d", w.p.fd))
+	if err != nil {
+		return nil
+	}
+	for _, l := range strings.Split(string(b), "\n") {
+		f := strings.Fields(l)
+		if len(f) < 6 || f[0] != "tfd:" || f[4] != "data:" {
+			continue
+		}
+		var fd int
+		var data uint64
+		fmt.Sscanf(f[1], "%d", &fd)
+		fmt.Sscanf(f[5], "%x", &data)
+		out[uintptr(data)] = append(out[uintptr(data)], fd)
+	}
+	for _, l := range out {
+		sort.Ints(l)
+	}
+	return out
+}
+
+func (w *vocWorld) regCount(op *FDOperator) int {
+	return len(w.regs()[uintptr(unsafe.Pointer(op))])
+}
+
+// pendingThrough: the poller holds a fetched, undispatched event through the slot
+func (w *vocWorld) pendingThrough(op *FDOperator) bool {
+	if !w.inBatch {
+		return false
+	}
+	for _, ev := range w.batch[w.bpos:] {
+		if *(**FDOperator)(unsafe.Pointer(&ev.data)) == op {
+			return true
+		}
+	}
+	return false
+}
+
+func (w *vocWorld) dialOf(o *FDOperator) *vocDial {
+	for _, d := range w.dials {
+		if !d.freed && d.op == o {
+			return d
+		}
+	}
+	return nil
+}
+
 // vocSentinel: an operator of the harness whose (synthetic) hang-up is the LAST entry of one handler call's hang-up list:
 // when its OnHup runs, the goroutine of that call has been through every earlier entry
 type vocSentinel struct {
@@ -98,6 +206,8 @@ func (w *vocWorld) freed(vc *vocConn) bool {
 type vocWorld struct {
 	p       *defaultPoll
 	conns   []*vocConn
+	dials   []*vocDial
+	wcloses int
 	batch   []epollevent
 	bpos    int
 	inBatch bool
@@ -309,8 +419,14 @@ func (st *vocSentinel) wait(d time.Duration) bool {
 // its OnDisconnect never called (C10: nothing done on behalf of another connection closes or stalls it)
 func (w *vocWorld) disturbed() []string {
 	var bad []string
+	regs := w.regs()
 	for _, vc := range w.conns {
 		if vc.closed || vc.peerClosed {
+			continue
+		}
+		// a slot has a single owner: the only descriptor the real epoll set holds under the slot's pointer is its connection's
+		if fds := regs[uintptr(unsafe.Pointer(vc.op))]; regs != nil && len(fds) > 0 && (len(fds) != 1 || fds[0] != vc.c.fd) {
+			bad = append(bad, fmt.Sprintf("conn%d (slot %d, fd %d): the epoll set holds the descriptors %v under its slot's pointer: the slot has a second registered owner", vc.id, vc.idx, vc.c.fd, fds))
 			continue
 		}
 		switch {
@@ -339,6 +455,15 @@ func (w *vocWorld) release() (full []string, hang bool) {
 		}
 	}
 	w.sents = nil
+	for _, d := range w.dials {
+		if d.deferred {
+			// the recorded hang-up has been delivered: pd.onhup closed closeTrigger, WaitWrite returns (unless it had returned before)
+			d.deferred = false
+			if !d.returned && !d.waitRet(2*time.Second) {
+				hang = true
+			}
+		}
+	}
 	for _, vc := range w.conns {
 		if !vc.deferred {
 			continue
@@ -378,7 +503,7 @@ func (w *vocWorld) slotObs(idx int32) string {
 		}
 	}
 	cb := 0
-	if op.Inputs != nil {
+	if op.Inputs != nil || op.OnWrite != nil || op.OnHup != nil {
 		cb = 1
 	}
 	return fmt.Sprintf("s%d:st=%d,loc=%s,cb=%d", idx, op.state, loc, cb)
@@ -443,14 +568,56 @@ func (w *vocWorld) open(handler bool) (string, string) {
 	if handler {
 		name = "openh"
 	}
-	if w.inBatch {
-		for _, ev := range w.batch[w.bpos:] {
-			if *(**FDOperator)(unsafe.Pointer(&ev.data)) == vc.op {
-				return fmt.Sprintf("%s %d slot=%d", name, vc.id, vc.idx), fmt.Sprintf("BYSTANDER-FAIL slot %d handed to connection %d while the poller holds a fetched, undispatched event through it", vc.idx, vc.id)
-			}
-		}
+	if w.pendingThrough(vc.op) {
+		return fmt.Sprintf("%s %d slot=%d", name, vc.id, vc.idx), fmt.Sprintf("BYSTANDER-FAIL slot %d handed to connection %d while the poller holds a fetched, undispatched event through it", vc.idx, vc.id)
 	}
 	return fmt.Sprintf("%s %d slot=%d", name, vc.id, vc.idx), "ok " + w.obs()
+}
+
+// dial: a dial in progress takes a slot: newPollDesc on a never-ready descriptor, WaitWrite (registers PollWritable, then blocks) on its
+// own goroutine with a context the harness cancels ("dtimeout")
+func (w *vocWorld) dial() (string, string) {
+	fds, err := syscall.Socketpair(syscall.AF_UNIX, syscall.SOCK_STREAM, 0)
+	if err != nil {
+		return "", "setup-failed"
+	}
+	syscall.SetNonblock(fds[0], true)
+	syscall.SetNonblock(fds[1], true)
+	syscall.SetsockoptInt(fds[0], syscall.SOL_SOCKET, syscall.SO_SNDBUF, 4096)
+	chunk := make([]byte, 4096)
+	for i := 0; i < 4096; i++ {
+		if _, err := syscall.Write(fds[0], chunk); err != nil {
+			break
+		}
+	}
+	d := &vocDial{id: len(w.dials), fd: fds[0], peer: fds[1], ret: make(chan struct{})}
+	d.pd = newPollDesc(fds[0])
+	d.op, d.idx = d.pd.operator, d.pd.operator.index
+	var ctx context.Context
+	ctx, d.cancel = context.WithCancel(context.Background())
+	w.dials = append(w.dials, d)
+	w.slots[d.idx] = true
+	line := fmt.Sprintf("dial %d slot=%d", d.id, d.idx)
+	if w.pendingThrough(d.op) {
+		d.returned, d.err = true, nil
+		close(d.ret)
+		return line, fmt.Sprintf("BYSTANDER-FAIL slot %d handed to dial %d while the poller holds a fetched, undispatched event through it", d.idx, d.id)
+	}
+	go func() {
+		d.err = d.pd.WaitWrite(ctx)
+		close(d.ret)
+	}()
+	dl := time.Now().Add(2 * time.Second)
+	for atomic.LoadInt32(&d.op.state) == 0 && time.Now().Before(dl) {
+		time.Sleep(20 * time.Microsecond)
+	}
+	for w.regCount(d.op) == 0 && time.Now().Before(dl) {
+		time.Sleep(20 * time.Microsecond)
+	}
+	if w.regCount(d.op) == 0 {
+		return line, "hang"
+	}
+	return line, fmt.Sprintf("ok reg=%d %s", w.regCount(d.op), w.obs())
 }
 
 func (w *vocWorld) exec(toks []string) (op string, reply string) {
@@ -549,12 +716,38 @@ func (w *vocWorld) exec(toks []string) (op string, reply string) {
 			}
 		}
 		willRun := atomic.LoadInt32(&o.state) == 1
+		var dl *vocDial
+		if vc == nil {
+			dl = w.dialOf(o)
+		}
+		// (a dial whose WaitWrite has already detached it - ctx.Done() - while an event fetched earlier is still in the batch: the
+		// callbacks run, their detach is a no-op)
+		dsuf := ""
+		if atomic.LoadInt32(&o.detached) > 0 {
+			dsuf = "d"
+		}
 		w.p.handler(ev)
 		ran := "none"
 		if len(w.ran) > 0 {
 			ran = fmt.Sprint(w.ran[0])
 		}
 		note := ""
+		if dl != nil && willRun && atomic.LoadInt32(&o.detached) > 0 {
+			// a dial's event: pollDesc.onwrite detached inside the dispatch and woke WaitWrite, or the hang-up path (appendHup detached,
+			// pd.onhup runs on the hang-up goroutine and wakes WaitWrite)
+			if vocChClosed(dl.pd.writeTrigger) {
+				note = " dial=out" + dsuf
+			} else {
+				t := time.Now().Add(2 * time.Second)
+				for !vocChClosed(dl.pd.closeTrigger) && time.Now().Before(t) {
+					time.Sleep(50 * time.Microsecond)
+				}
+				note = " dial=hup" + dsuf
+			}
+			if !dl.waitRet(2 * time.Second) {
+				return fmt.Sprintf("dispatch %d%s", o.index, note), "hang"
+			}
+		}
 		if vc != nil && willRun {
 			// (with data in the same event the handler reads first and leaves the hang-up to the next wait)
 			if atomic.LoadInt32(&o.detached) > 0 || vc.c.status(closing) != 0 {
@@ -674,16 +867,21 @@ func (w *vocWorld) exec(toks []string) (op string, reply string) {
 		type item struct {
 			o       *FDOperator
 			vc      *vocConn
+			dl      *vocDial
 			willRun bool
+			pre     bool // detached before the handler call
 		}
 		items := make([]item, len(evs))
 		for i := range evs {
 			o := *(**FDOperator)(unsafe.Pointer(&evs[i].data))
-			items[i] = item{o: o, willRun: atomic.LoadInt32(&o.state) == 1}
+			items[i] = item{o: o, willRun: atomic.LoadInt32(&o.state) == 1, pre: atomic.LoadInt32(&o.detached) > 0}
 			for _, c := range w.conns {
 				if !c.closed && !c.hupped && c.op == o {
 					items[i].vc = c
 				}
+			}
+			if items[i].vc == nil {
+				items[i].dl = w.dialOf(o)
 			}
 		}
 		st, err := w.newSentinel()
@@ -714,6 +912,28 @@ func (w *vocWorld) exec(toks []string) (op string, reply string) {
 		for _, it := range items {
 			vc, o := it.vc, it.o
 			tag := ""
+			if dl := it.dl; dl != nil && it.willRun && atomic.LoadInt32(&o.detached) > 0 {
+				dsuf := ""
+				if it.pre {
+					dsuf = "d"
+				}
+				switch {
+				case vocChClosed(dl.pd.writeTrigger):
+					tag = ":dout"
+					if !dl.waitRet(2 * time.Second) {
+						return "dispatchall -", "hang"
+					}
+				case blocked:
+					// recorded behind a blocked entry of the same hang-up list: pd.onhup has not run, WaitWrite is still parked
+					dl.deferred, tag = true, ":dhupq"
+				default:
+					tag = ":dhup"
+					if !dl.waitRet(2 * time.Second) {
+						return "dispatchall -", "hang"
+					}
+				}
+				tag += dsuf
+			}
 			if vc != nil && it.willRun {
 				if atomic.LoadInt32(&o.detached) > 0 || vc.c.status(closing) != 0 {
 					switch {
@@ -829,6 +1049,170 @@ func (w *vocWorld) exec(toks []string) (op string, reply string) {
 			skip = 1
 		}
 		return fmt.Sprintf("drel %d skip=%d", o.index, skip), fmt.Sprintf("ok ran=%s %s", ran, w.obs())
+	case "wclose":
+		// an API call of the connection IN FLIGHT across its close: Write() has passed IsActive(), holds lock(flushing) and is parked
+		// in front of its sendmsg on c.fd (schedule point of lib/epollhook.py) while the owner's Close() runs on another goroutine.
+		// While the closer is at work probe descriptor pairs are opened (the kernel hands out the lowest free numbers: if the
+		// connection's descriptor number has been given back a probe gets it); then the writer goes on.  Its bytes must not appear on
+		// a probe (C10: nothing done on behalf of the closed connection injects data into another one, even when its descriptor number was reused).
+		vc := w.conns[atoi(toks[1])]
+		if vc.closed || vc.hupped || vc.peerClosed || vc.deferred || vc.gate != nil || !vocSendHookAvailable() {
+			return op, "skip"
+		}
+		vc.settle()
+		line := fmt.Sprintf("wclose %d slot=%d", vc.id, vc.idx)
+		afd := vc.c.fd
+		arrived, resume := make(chan struct{}), make(chan struct{})
+		var once int32
+		verifBeforeSendmsg = func(fd int) {
+			if fd == afd && atomic.CompareAndSwapInt32(&once, 0, 1) {
+				close(arrived)
+				<-resume
+			}
+		}
+		defer func() { verifBeforeSendmsg = nil }()
+		payload := []byte("A-PRIVATE-BYTES")
+		wdone := make(chan error, 1)
+		go func() {
+			_, err := vc.c.Write(payload)
+			wdone <- err
+		}()
+		select {
+		case <-arrived:
+		case <-wdone:
+			return op, "skip" // the writer did not get as far as its sendmsg
+		case <-time.After(3 * time.Second):
+			return line, "hang"
+		}
+		closedCh := make(chan struct{})
+		go func() {
+			vc.c.Close()
+			close(closedCh)
+		}()
+		// give the closer time to get as far as it can while the writer is in flight
+		for t := time.Now().Add(2 * time.Millisecond); time.Now().Before(t) && atomic.LoadUint32(&vc.c.netFD.closed) == 0; {
+			runtime.Gosched()
+		}
+		var probes [][2]int
+		for i := 0; i < 3; i++ {
+			fds, err := syscall.Socketpair(syscall.AF_UNIX, syscall.SOCK_STREAM, 0)
+			if err != nil {
+				break
+			}
+			syscall.Write(fds[1], []byte("PROBE"))
+			probes = append(probes, [2]int{fds[0], fds[1]})
+			if fds[0] == afd || fds[1] == afd {
+				break
+			}
+		}
+		close(resume)
+		hang := false
+		select {
+		case <-wdone:
+		case <-time.After(3 * time.Second):
+			hang = true
+		}
+		select {
+		case <-closedCh:
+		case <-time.After(3 * time.Second):
+			hang = true
+		}
+		if !hang && vc.handler && !w.freed(vc) {
+			hang = true
+		}
+		verdict := ""
+		for _, pr := range probes {
+			buf := make([]byte, 64)
+			n0, _, _ := syscall.Recvfrom(pr[0], buf, syscall.MSG_PEEK|syscall.MSG_DONTWAIT)
+			got0 := string(buf[:vocMax0(n0)])
+			n1, _, _ := syscall.Recvfrom(pr[1], buf, syscall.MSG_PEEK|syscall.MSG_DONTWAIT)
+			got1 := string(buf[:vocMax0(n1)])
+			if verdict == "" && (got0 != "PROBE" || got1 != "") {
+				verdict = fmt.Sprintf("probe pair (fd %d, fd %d) opened while connection %d's Write was in flight (its descriptor number: %d): %q / %q readable instead of \"PROBE\" / nothing", pr[0], pr[1], vc.id, afd, got0, got1)
+			}
+			syscall.Close(pr[0])
+			syscall.Close(pr[1])
+		}
+		if hang {
+			return line, "hang"
+		}
+		vc.closed = true
+		syscall.Close(vc.peer)
+		w.wcloses++
+		if verdict != "" {
+			return line, "BYSTANDER-FAIL bytes written on behalf of a connection that was closed meanwhile were injected into another descriptor: " + verdict
+		}
+		return line, "ok probe=intact " + w.obs()
+	case "dial":
+		if len(w.dials) >= 3 {
+			return op, "skip"
+		}
+		return w.dial()
+	case "dev":
+		// the network acts on a dial's descriptor: its peer goes away (hang-up) or takes the queued bytes (the descriptor becomes writable)
+		if atoi(toks[1]) >= len(w.dials) || len(toks) < 3 {
+			return op, "skip"
+		}
+		d := w.dials[atoi(toks[1])]
+		if d.peerClosed {
+			return op, "skip"
+		}
+		if toks[2] == "hup" {
+			d.peerClosed = true
+			syscall.Close(d.peer)
+		} else {
+			buf := make([]byte, 65536)
+			for {
+				if n, err := syscall.Read(d.peer, buf); n <= 0 || err != nil {
+					break
+				}
+			}
+		}
+		return fmt.Sprintf("dev %d %s", d.id, toks[2]), "ok " + w.obs()
+	case "dtimeout":
+		// the dial's context ends while WaitWrite is parked: the ctx.Done() branch of the real WaitWrite runs
+		if atoi(toks[1]) >= len(w.dials) {
+			return op, "skip"
+		}
+		d := w.dials[atoi(toks[1])]
+		if d.returned || d.freed {
+			return op, "skip"
+		}
+		pre := ""
+		if atomic.LoadInt32(&d.op.detached) > 0 {
+			pre = " pre=detached" // a hang-up was recorded (appendHup detached the operator) and has not been delivered yet
+		}
+		d.cancel()
+		line := fmt.Sprintf("dtimeout %d slot=%d%s", d.id, d.idx, pre)
+		if !d.waitRet(3 * time.Second) {
+			return line, "hang"
+		}
+		return line, fmt.Sprintf("ok reg=%d %s", w.regCount(d.op), w.obs())
+	case "dfree":
+		// netFD.connect's deferred func after WaitWrite returned: c.pd.operator.Free()
+		if atoi(toks[1]) >= len(w.dials) {
+			return op, "skip"
+		}
+		d := w.dials[atoi(toks[1])]
+		if !d.returned || d.freed {
+			return op, "skip"
+		}
+		o := d.op
+		d.op.Free()
+		d.freed = true
+		return fmt.Sprintf("dfree %d slot=%d", d.id, d.idx), fmt.Sprintf("ok reg=%d %s", w.regCount(o), w.obs())
+	case "dclosefd":
+		// socket() after the failed dial: netfd.Close()
+		if atoi(toks[1]) >= len(w.dials) {
+			return op, "skip"
+		}
+		d := w.dials[atoi(toks[1])]
+		if !d.freed || d.fdClosed {
+			return op, "skip"
+		}
+		syscall.Close(d.fd)
+		d.fdClosed = true
+		return fmt.Sprintf("dclosefd %d slot=%d", d.id, d.idx), fmt.Sprintf("ok reg=%d %s", w.regCount(d.op), w.obs())
 	case "endbatch":
 		if !w.inBatch || w.bpos < len(w.batch) {
 			return op, "skip"
@@ -906,6 +1290,13 @@ func (w *vocWorld) exec(toks []string) (op string, reply string) {
 
 func vocIgnore(string) string { return "" }
 
+func vocMax0(n int) int {
+	if n < 0 {
+		return 0
+	}
+	return n
+}
+
 func vocNewWorld() (*vocWorld, func(), error) {
 	p, err := openDefaultPoll()
 	if err != nil {
@@ -920,6 +1311,22 @@ func vocNewWorld() (*vocWorld, func(), error) {
 	w := &vocWorld{p: p, slots: map[int32]bool{}}
 	return w, func() {
 		w.release()
+		for _, d := range w.dials {
+			d.cancel()
+			d.waitRet(2 * time.Second)
+			if d.returned && !d.freed {
+				d.op.Free()
+				d.freed = true
+			}
+			if d.freed && !d.fdClosed {
+				syscall.Close(d.fd)
+				d.fdClosed = true
+			}
+			if !d.peerClosed {
+				syscall.Close(d.peer)
+				d.peerClosed = true
+			}
+		}
 		for _, vc := range w.conns {
 			if !vc.closed {
 				vc.c.Close()
@@ -998,6 +1405,113 @@ func (w *vocWorld) runRound(spec string, emit func(string) bool) {
 		}
 	}
 	emit("waitend")
+}
+
+// vocDirected: directed preludes around (0) a Write in flight across the close of its connection, (1) the window between a timed-out
+// dial's operator.Free() and the close of its descriptor, (2) a dial's hang-up delivered late by the hang-up goroutine
+func vocDirected(w *vocWorld, r *rand.Rand, kind int, emit func(string) bool) {
+	k := 1 + r.Intn(3)
+	for i := 0; i < k; i++ {
+		if i > 0 && r.Intn(3) == 0 {
+			emit("openh")
+		} else {
+			emit("open")
+		}
+	}
+	if r.Intn(3) == 0 {
+		emit("drain")
+	}
+	switch kind {
+	case 0:
+		for i := 0; i < k; i++ {
+			if r.Intn(2) == 0 {
+				emit(fmt.Sprintf("send %d", i))
+			}
+		}
+		if r.Intn(2) == 0 {
+			emit("fetch")
+		}
+		emit(fmt.Sprintf("wclose %d", r.Intn(k)))
+		if r.Intn(2) == 0 {
+			emit("open")
+			emit(fmt.Sprintf("send %d", len(w.conns)-1))
+		}
+	case 1:
+		emit("dial")
+		d := len(w.dials) - 1
+		if d < 0 {
+			return
+		}
+		if r.Intn(3) == 0 {
+			emit(fmt.Sprintf("send %d", r.Intn(k)))
+			emit("fetch")
+		}
+		emit(fmt.Sprintf("dtimeout %d", d))
+		emit(fmt.Sprintf("dfree %d", d))
+		closeEarly := r.Intn(4) == 0
+		if closeEarly {
+			emit(fmt.Sprintf("dclosefd %d", d))
+		}
+		// the poller ends a batch: the freed slot goes back to the free chain; a new connection takes it
+		for w.inBatch && w.bpos < len(w.batch) {
+			emit("dispatch")
+		}
+		emit("fetch")
+		for w.inBatch && w.bpos < len(w.batch) {
+			emit("dispatch")
+		}
+		emit("endbatch")
+		for j := 1 + r.Intn(2); j > 0; j-- {
+			emit("open")
+		}
+		// the late answer to the dial arrives
+		emit(fmt.Sprintf("dev %d %s", d, []string{"hup", "hup", "out"}[r.Intn(3)]))
+		if r.Intn(2) == 0 {
+			emit(fmt.Sprintf("send %d", len(w.conns)-1))
+		}
+		emit("fetch")
+		for w.inBatch && w.bpos < len(w.batch) {
+			emit("dispatch")
+		}
+		emit("endbatch")
+		emit(fmt.Sprintf("dclosefd %d", d))
+		emit("check")
+	case 2:
+		emit("gate 0")
+		emit("dial")
+		d := len(w.dials) - 1
+		if d < 0 {
+			return
+		}
+		emit("hup 0")
+		emit(fmt.Sprintf("dev %d hup", d))
+		emit("fetch")
+		emit("dispatchall")
+		emit(fmt.Sprintf("dtimeout %d", d))
+		emit(fmt.Sprintf("dfree %d", d))
+		if r.Intn(4) != 0 {
+			emit(fmt.Sprintf("dclosefd %d", d))
+		}
+		emit("endbatch")
+		if r.Intn(2) == 0 {
+			emit("fetch")
+			emit("endbatch")
+		}
+		for j := 1 + r.Intn(2); j > 0; j-- {
+			emit("open")
+		}
+		if r.Intn(2) == 0 {
+			emit(fmt.Sprintf("send %d", len(w.conns)-1))
+		}
+		emit("release")
+		emit(fmt.Sprintf("dclosefd %d", d))
+		emit("fetch")
+		for w.inBatch && w.bpos < len(w.batch) {
+			emit("dispatch")
+		}
+		emit("endbatch")
+		emit("check")
+	}
 }
 
 // VerifOpCacheMain: opcacheh -seed S -seqs N -ops K -ops-out F -impl-out F [-replay F]
@@ -1137,8 +1651,12 @@ func VerifOpCacheMain(args []string) int {
 				t = t[:1]
 			case "drel":
 				t = t[:1]
-			case "close", "send", "hup", "gate", "rel":
+			case "dial":
+				t = t[:1]
+			case "close", "send", "hup", "gate", "rel", "wclose", "dtimeout", "dfree", "dclosefd":
 				t = t[:2]
+			case "dev":
+				t = t[:3]
 			case "stale":
 				t = t[:3]
 			}
@@ -1226,7 +1744,9 @@ func VerifOpCacheMain(args []string) int {
 				continue
 			}
 		}
-		if *hazard && r.Intn(3) == 0 {
+		if dk := r.Intn(15); dk < 3 || (*hazard && dk < 9) {
+			vocDirected(w, r, dk%3, func(l string) bool { return emit(w, l) })
+		} else if *hazard && r.Intn(3) == 0 {
 			// directed prelude around the hang-up queue: several peers hang up, all of it dispatched in ONE handler call with the first
 			// connection's OnDisconnect blocked (one hang-up list, one goroutine, stuck at its first entry); meanwhile users close some of
 			// the others, the batch ends, new connections take the freed slots; then the goroutine is let go
@@ -1304,7 +1824,7 @@ func VerifOpCacheMain(args []string) int {
 			var line string
 			nc := len(w.conns)
 			pick := func() int { return r.Intn(nc) }
-			switch k := r.Intn(24); {
+			switch k := r.Intn(27); {
 			case k == 20:
 				if r.Intn(2) == 0 {
 					continue
@@ -1318,6 +1838,21 @@ func VerifOpCacheMain(args []string) int {
 				if r.Intn(2) == 0 {
 					line = "openh"
 				}
+			case k == 24 || k == 25:
+				// a dial in progress as a slot owner: started, its peer acting, its context ending, connect's deferred Free, socket()'s close
+				nd := len(w.dials)
+				if nd == 0 || (nd < 3 && r.Intn(4) == 0) {
+					line = "dial"
+				} else {
+					d := r.Intn(nd)
+					line = []string{fmt.Sprintf("dev %d hup", d), fmt.Sprintf("dev %d out", d), fmt.Sprintf("dtimeout %d", d), fmt.Sprintf("dtimeout %d", d),
+						fmt.Sprintf("dfree %d", d), fmt.Sprintf("dfree %d", d), fmt.Sprintf("dclosefd %d", d)}[r.Intn(7)]
+				}
+			case k == 26:
+				if r.Intn(2) == 0 {
+					continue
+				}
+				line = fmt.Sprintf("wclose %d", pick())
 			case k == 21:
 				line = fmt.Sprintf("gate %d", pick())
 			case k == 22:
